@@ -179,6 +179,10 @@ structure WFn where
   filter : Option Flt
 deriving Repr
 
+/-- `score_mode` of `function_score` (`avg` is not modelled) -/
+inductive SMode | sum | multiply | max | min
+deriving DecidableEq, Repr
+
 inductive Q
   | matchAll
   | term (f v : Str)
@@ -191,6 +195,12 @@ inductive Q
   | disMax (qs : List Q)
   | bool (must should mustNot : List Q) (filter : List Flt) (msm : Option Nat)
   | constantScore (f : Flt)
+  /-- `function_score` with `boost_mode: replace` and `weight` functions (at least one without a
+  filter): the combined score is a function of the document's filter values only -/
+  | functionScore (q : Q) (fns : List WFn) (mode : SMode) (maxBoost minScore : Option Int)
+  /-- `script_score` with script `_score` (`guard = none`) or `_score + 1 / (field - k)` -/
+  | scriptScore (q : Q) (guard : Option (Str × Int))
+  | rankFeature (f : Str)
 deriving Repr
 
 /-! ## query-string parser (`api/query.rs`) -/
@@ -544,6 +554,9 @@ def plan (c : Ctx) (sc : Bool) : Q → Matcher
   | .bool must should mustNot filter msm =>
     .bool (planList c sc must) (planList c sc should) (planList c false mustNot) filter msm
   | .constantScore f => .bool [] [] [] [f] none
+  | .functionScore q _ _ _ _ => plan c sc q
+  | .scriptScore q _ => plan c sc q
+  | .rankFeature _ => .matchAll
 def planList (c : Ctx) (sc : Bool) : List Q → List Matcher
   | [] => []
   | q :: qs => plan c sc q :: planList c sc qs
@@ -663,11 +676,108 @@ def evalCount (c : Ctx) (segs : List Seg) (s : Seg) (o : Nat) : List Matcher →
   | m :: ms => (if evalM c segs s o m then 1 else 0) + evalCount c segs s o ms
 end
 
+/-! ## score tree (`ScoreNode`) as far as it decides whether a hit is dropped -/
+
+inductive SNode
+  | empty
+  | expr
+  | constant
+  | rank
+  | sum (cs : List SNode)
+  | disMax (cs : List SNode)
+  | fnScore (m : Matcher) (base : SNode) (fns : List WFn) (mode : SMode) (maxBoost minScore : Option Int)
+  | script (m : Matcher) (base : SNode) (guard : Option (Str × Int))
+deriving Repr
+
+/-- `[] → Empty`, `[n] → n`, otherwise the combining node -/
+def collapse (mk : List SNode → SNode) : List SNode → SNode
+  | [] => .empty
+  | [n] => n
+  | ns => mk ns
+
+/-- `if !matches!(score_node, ScoreNode::Empty) { score_nodes.push(score_node) }` -/
+def SNode.nonEmpty (n : SNode) : List SNode :=
+  match n with
+  | .empty => []
+  | n => [n]
+
+mutual
+/-- third component of `build_node` -/
+def scoreTree (c : Ctx) (sc : Bool) : Q → SNode
+  | .matchAll => .empty
+  | .term _ _ => if sc then .expr else .empty
+  | .pfx _ _ _ => if sc then .expr else .empty
+  | .wildcard _ _ _ => if sc then .expr else .empty
+  | .regex _ _ _ => if sc then .expr else .empty
+  | .phrase _ _ _ => .empty
+  | .queryString q _ => if sc && !(parseQuery q).terms.isEmpty then .expr else .empty
+  | .multiMatch _ fields ty _ _ =>
+    match ty with
+    | .best => if fields.isEmpty then .empty else .expr
+    | _ => if sc then .expr else .empty
+  | .disMax qs => collapse .disMax (scoreNodes c sc qs)
+  | .bool must should mustNot _ _ =>
+    collapse .sum (scoreNodes c sc must ++ scoreNodes c sc should ++ scoreNodes c false mustNot)
+  | .constantScore _ => .constant
+  | .functionScore q fns mode maxB minS => .fnScore (plan c sc q) (scoreTree c sc q) fns mode maxB minS
+  | .scriptScore q guard => .script (plan c sc q) (scoreTree c sc q) guard
+  | .rankFeature _ => .rank
+/-- the non-`Empty` score nodes of the children -/
+def scoreNodes (c : Ctx) (sc : Bool) : List Q → List SNode
+  | [] => []
+  | q :: qs => (scoreTree c sc q).nonEmpty ++ scoreNodes c sc qs
+end
+
+/-- `combine_function_scores` over the weights of the functions whose filter passes (`none`: no
+function applies — the combined score is then the base score, which the model does not know) -/
+def combineWeights (d : ADoc) (fns : List WFn) (mode : SMode) : Option Int :=
+  match fns.filterMap (fun w => match w.filter with
+      | some f => if Flt.passes d f then some w.weight else none
+      | none => some w.weight) with
+  | [] => none
+  | v :: vs =>
+    some (match mode with
+      | .sum => vs.foldl (· + ·) v
+      | .multiply => vs.foldl (· * ·) v
+      | .max => vs.foldl max v
+      | .min => vs.foldl min v)
+
+/-- `combined < min_score` for `boost_mode: replace` (after `max_boost`) -/
+def fnBelow (d : ADoc) (fns : List WFn) (mode : SMode) (maxBoost minScore : Option Int) : Bool :=
+  match minScore, combineWeights d fns mode with
+  | some ms, some v => decide ((match maxBoost with | some mb => min v mb | none => v) < ms)
+  | _, _ => false
+
+/-- the script `_score + 1 / (field - k)` divides by zero (missing value = 0) -/
+def guardHit (d : ADoc) (guard : Option (Str × Int)) : Bool :=
+  match guard with
+  | none => false
+  | some (f, k) => (((assoc f d.i64).getD []).headD 0) == k
+
+mutual
+/-- `evaluate_compiled_score(..) = None`: the hit is dropped -/
+def dropped (c : Ctx) (segs : List Seg) (s : Seg) (o : Nat) (d : ADoc) : SNode → Bool
+  | .empty => false
+  | .expr => false
+  | .constant => false
+  | .rank => false
+  | .sum cs => !cs.isEmpty && droppedAll c segs s o d cs
+  | .disMax cs => !cs.isEmpty && droppedAll c segs s o d cs
+  | .fnScore m base fns mode maxB minS =>
+    evalM c segs s o m && (dropped c segs s o d base || fnBelow d fns mode maxB minS)
+  | .script m base guard =>
+    evalM c segs s o m && (dropped c segs s o d base || guardHit d guard)
+def droppedAll (c : Ctx) (segs : List Seg) (s : Seg) (o : Nat) (d : ADoc) : List SNode → Bool
+  | [] => true
+  | n :: ns => dropped c segs s o d n && droppedAll c segs s o d ns
+end
+
 /-! ## `search_segment` / `scan_segment`: candidates, accept -/
 
-def accept (c : Ctx) (segs : List Seg) (m : Matcher) (root : Option Flt) (s : Seg) (o : Nat) : Bool :=
+def accept (c : Ctx) (segs : List Seg) (m : Matcher) (sn : SNode) (root : Option Flt) (s : Seg) (o : Nat) : Bool :=
   !(s.deleted.contains o) && evalM c segs s o m &&
-    (match root with | some f => docPasses s o [f] | none => true)
+    (match root with | some f => docPasses s o [f] | none => true) &&
+    (match s.docs[o]? with | some d => !(dropped c segs s o d sn) | none => false)
 
 /-- ordinals visited in one segment: all of them when the request has no scored term at all,
 otherwise the union of the posting lists of the scored terms -/
@@ -675,18 +785,21 @@ def candidates (quals : List (Str × Str)) (s : Seg) : List Nat :=
   if quals.isEmpty then List.range s.docs.length
   else dedup (quals.flatMap (fun k => postings s k.1 k.2))
 
-def searchSeg (c : Ctx) (segs : List Seg) (m : Matcher) (root : Option Flt) (s : Seg) : List Nat :=
-  (candidates (qualified c segs m) s).filter (accept c segs m root s)
+def searchSeg (c : Ctx) (segs : List Seg) (m : Matcher) (sn : SNode) (root : Option Flt) (s : Seg) : List Nat :=
+  (candidates (qualified c segs m) s).filter (accept c segs m sn root s)
+
+/-- one segment of a request -/
+def searchSegQ (c : Ctx) (segs : List Seg) (q : Q) (root : Option Flt) (s : Seg) : List Nat :=
+  searchSeg c segs (plan c true q) (scoreTree c true q) root s
 
 /-- ordinals returned per segment (limit ≥ number of matches, `execution: bm25`) -/
 def searchOrds (c : Ctx) (segs : List Seg) (q : Q) (root : Option Flt) : List (List Nat) :=
-  let m := plan c true q
-  segs.map (searchSeg c segs m root)
+  segs.map (searchSegQ c segs q root)
 
 /-- ids of the hits -/
 def search (c : Ctx) (segs : List Seg) (q : Q) (root : Option Flt) : List Str :=
   segs.flatMap (fun s =>
-    (searchSeg c segs (plan c true q) root s).filterMap (fun o => (s.docs[o]?).map (·.id)))
+    (searchSegQ c segs q root s).filterMap (fun o => (s.docs[o]?).map (·.id)))
 
 mutual
 /-- all phrase specs of a matcher -/
@@ -776,8 +889,10 @@ def group (c : Ctx) (d : ADoc) (g : Group) : Bool :=
 
 mutual
 /-- documented boolean semantics of a query on one document; `sc`: the clause contributes to
-scoring (false below `must_not`), which only matters for request-level fuzzy matching -/
-def matchesQ (c : Ctx) (d : ADoc) (sc : Bool) : Q → Bool
+scoring (false below `must_not`), which only matters for request-level fuzzy matching; `hd`
+(honour drops) = `true` is the documented reading, `hd = false` ignores `min_score` / valueless
+scripts (that is what the matcher tree alone implements) -/
+def matchesQ (c : Ctx) (hd : Bool) (d : ADoc) (sc : Bool) : Q → Bool
   | .matchAll => true
   | .term f v => group c d ⟨[f], v, .exact, sc⟩
   | .pfx f v cap => group c d ⟨[f], v, .pfx cap, sc⟩
@@ -801,20 +916,25 @@ def matchesQ (c : Ctx) (d : ADoc) (sc : Bool) : Q → Bool
     (p.terms.isEmpty ||
       decide ((resolveMsm msm p.terms.length opAnd).getD 1 ≤
         (p.terms.filter (fun t => group c d (mmGroup fields sc t))).length))
-  | .disMax qs => matchesAny c d sc qs
+  | .disMax qs => matchesAny c hd d sc qs
   | .bool must should mustNot filter msm =>
-    matchesAll c d sc must && !(matchesAny c d false mustNot) && Flt.passesAll d filter &&
-      decide (msm.getD (defaultMinShould should.length must.length filter.length) ≤ matchesCount c d sc should)
+    matchesAll c hd d sc must && !(matchesAny c hd d false mustNot) && Flt.passesAll d filter &&
+      decide (msm.getD (defaultMinShould should.length must.length filter.length) ≤ matchesCount c hd d sc should)
   | .constantScore f => Flt.passes d f
-def matchesAll (c : Ctx) (d : ADoc) (sc : Bool) : List Q → Bool
+  -- a function_score clause is satisfied by the documents its query selects whose combined
+  -- score reaches `min_score`; a script_score clause by those for which the script has a value
+  | .functionScore q fns mode maxB minS => matchesQ c hd d sc q && !(hd && fnBelow d fns mode maxB minS)
+  | .scriptScore q guard => matchesQ c hd d sc q && !(hd && guardHit d guard)
+  | .rankFeature _ => true
+def matchesAll (c : Ctx) (hd : Bool) (d : ADoc) (sc : Bool) : List Q → Bool
   | [] => true
-  | q :: qs => matchesQ c d sc q && matchesAll c d sc qs
-def matchesAny (c : Ctx) (d : ADoc) (sc : Bool) : List Q → Bool
+  | q :: qs => matchesQ c hd d sc q && matchesAll c hd d sc qs
+def matchesAny (c : Ctx) (hd : Bool) (d : ADoc) (sc : Bool) : List Q → Bool
   | [] => false
-  | q :: qs => matchesQ c d sc q || matchesAny c d sc qs
-def matchesCount (c : Ctx) (d : ADoc) (sc : Bool) : List Q → Nat
+  | q :: qs => matchesQ c hd d sc q || matchesAny c hd d sc qs
+def matchesCount (c : Ctx) (hd : Bool) (d : ADoc) (sc : Bool) : List Q → Nat
   | [] => 0
-  | q :: qs => (if matchesQ c d sc q then 1 else 0) + matchesCount c d sc qs
+  | q :: qs => (if matchesQ c hd d sc q then 1 else 0) + matchesCount c hd d sc qs
 end
 
 /-- the documents a search must return: live, matching, passing the root filter -/
@@ -822,7 +942,7 @@ def wanted (c : Ctx) (q : Q) (root : Option Flt) (s : Seg) (o : Nat) : Bool :=
   match s.docs[o]? with
   | none => false
   | some d =>
-    !(s.deleted.contains o) && matchesQ c d true q &&
+    !(s.deleted.contains o) && matchesQ c true d true q &&
       (match root with | some f => Flt.passes d f | none => true)
 
 def searchOrds (c : Ctx) (segs : List Seg) (q : Q) (root : Option Flt) : List (List Nat) :=
@@ -909,12 +1029,50 @@ def forces (sc : Bool) : Q → Bool
     forcesAny sc must ||
       (decide (1 ≤ msm.getD (defaultMinShould should.length must.length filter.length)) && forcesAll sc should)
   | .constantScore _ => false
+  | .functionScore q _ _ _ _ => forces sc q
+  | .scriptScore q _ => forces sc q
+  | .rankFeature _ => false
 def forcesAll (sc : Bool) : List Q → Bool
   | [] => true
   | q :: qs => forces sc q && forcesAll sc qs
 def forcesAny (sc : Bool) : List Q → Bool
   | [] => false
   | q :: qs => forces sc q || forcesAny sc qs
+end
+
+mutual
+/-- no function_score / script_score clause anywhere -/
+def Q.plain : Q → Bool
+  | .disMax qs => Q.plainAll qs
+  | .bool must should mustNot _ _ => Q.plainAll must && Q.plainAll should && Q.plainAll mustNot
+  | .functionScore _ _ _ _ _ => false
+  | .scriptScore _ _ => false
+  | _ => true
+def Q.plainAll : List Q → Bool
+  | [] => true
+  | q :: qs => q.plain && Q.plainAll qs
+end
+
+/-- function_score / script_score clauses occur only as a chain at the root of the request -/
+def Q.rootChain : Q → Bool
+  | .functionScore q _ _ _ _ => q.rootChain
+  | .scriptScore q _ => q.rootChain
+  | q => q.plain
+
+mutual
+/-- some function_score / script_score clause selects the document (matcher only) and excludes it
+by `min_score` / a valueless script -/
+def customDropHit (c : Ctx) (d : ADoc) (sc : Bool) : Q → Bool
+  | .disMax qs => customDropHitAny c d sc qs
+  | .bool must should mustNot _ _ =>
+    customDropHitAny c d sc must || customDropHitAny c d sc should || customDropHitAny c d false mustNot
+  | .functionScore q fns mode maxB minS =>
+    customDropHit c d sc q || (Spec.matchesQ c false d sc q && fnBelow d fns mode maxB minS)
+  | .scriptScore q guard => customDropHit c d sc q || (Spec.matchesQ c false d sc q && guardHit d guard)
+  | _ => false
+def customDropHitAny (c : Ctx) (d : ADoc) (sc : Bool) : List Q → Bool
+  | [] => false
+  | q :: qs => customDropHit c d sc q || customDropHitAny c d sc qs
 end
 
 /-- every wanted document is visited: the request has no scored term at all (full scan), or the
